@@ -8,8 +8,11 @@ from vf.model import Ref
 ID = 'C01'
 LEVEL = 'exploration'
 RULE = ('generated references + GVF record sets of the families small (SNV/indel/MNV), '
-    'multi-transcript, alternative splicing, fusion, circRNA (<=8 usable records per backbone) '
-    'x cleavage/limit/alt-translation options; oracle: must-set L = definitional digest over '
+    'multi-transcript, alternative splicing, fusion (also between two isoforms of one gene), '
+    'circRNA (>= 30 nt), fusion + circRNA on one transcript (<=8 usable records per backbone; '
+    'planted geometries: stop-codon records with read-through records, adjacent SNV pairs, '
+    'look-behind cleavage gain, circRNA ORF round the loop with records on its start codon) '
+    'x cleavage/limit/alt-translation options (W>F on every family); oracle: must-set L = definitional digest over '
     'all mutually compatible record subsets (vf.cvmodel) must be contained in the FASTA, and '
     'the FASTA sequence set must be identical for other node-collapsing parameters; '
     'non-trivial = L contains a peptide that needs >=2 records or a non-SNV record '
